@@ -47,6 +47,11 @@ pub proof fn lemma_boundary_unique(s: Seq<char>, i: int, j: int)
 pub trait StrPat: Sized { spec fn pat(&self) -> Seq<char>; }
 impl<'a> StrPat for &'a Str { open spec fn pat(&self) -> Seq<char> { (**self)@ } }
 impl StrPat for char { open spec fn pat(&self) -> Seq<char> { seq![*self] } }
+impl StrPat for &'static str { open spec fn pat(&self) -> Seq<char> { (*self)@ } }
+// R1: an owned String or a &str/&String where std takes `impl Into<PathBuf>` / `AsRef<OsStr>`
+pub trait StrArg: Sized { spec fn sv(&self) -> Seq<char>; }
+impl<'a> StrArg for &'a Str { open spec fn sv(&self) -> Seq<char> { (**self)@ } }
+impl StrArg for Str { open spec fn sv(&self) -> Seq<char> { self@ } }
 #[verifier::external_body]
 pub struct Str { s: String }     // R1: String, &str, &String share one view
 impl Str {
